@@ -470,6 +470,70 @@ Section DispAgree.
   Qed.
 End DispAgree.
 
+(* ---------- the write phase: Dispatch's EWrites event and the files the pipeline opens ---------- *)
+Definition truncated (effs : list effect) : list path :=
+  flat_map (fun e => match e with ETruncate q => [q] | _ => [] end) effs.
+
+Lemma truncated_app : forall x y, truncated (x ++ y) = truncated x ++ truncated y.
+Proof. intros. unfold truncated. apply flat_map_app. Qed.
+
+Lemma filter_map_comm {A B} (f : B -> bool) (h : A -> B) : forall l, filter f (map h l) = map h (filter (fun x => f (h x)) l).
+Proof. induction l as [|x r IH]; cbn; [reflexivity|]. rewrite IH. destruct (f (h x)); reflexivity. Qed.
+
+Lemma filter_filter {A} (f h : A -> bool) : forall l, filter f (filter h l) = filter (fun x => h x && f x) l.
+Proof. induction l as [|x r IH]; cbn; [reflexivity|]. destruct (h x); cbn; [destruct (f x); rewrite IH; reflexivity | exact IH]. Qed.
+
+Lemma filter_perm' {A} (f : A -> bool) : forall l1 l2, Permutation l1 l2 -> Permutation (filter f l1) (filter f l2).
+Proof.
+  intros l1 l2 H. induction H as [|x l l' H IH|x y l|l l' l'' H1 IH1 H2 IH2]; cbn.
+  - constructor.
+  - destruct (f x); [apply perm_skip|]; exact IH.
+  - destruct (f x), (f y); try apply perm_swap; try apply Permutation_refl.
+  - eapply Permutation_trans; eassumption.
+Qed.
+
+Section Writes.
+  Variable E : env.
+  Hypothesis Hfmt : forall src, e_fmt E src <> None.
+  Hypothesis Hord : order_ok E.
+
+  Lemma write_loop_truncated : forall a p gfs rem,
+    truncated (fst (fst (write_loop E a p gfs rem)))
+    = map (fun gf => gen_file a p (fst gf)) (filter (fun gf => negb (is_nil (snd gf))) gfs).
+  Proof.
+    intros a p. induction gfs as [|[n body] r IH]; intros rem; cbn [write_loop filter snd fst]; [reflexivity|].
+    destruct (is_nil body); cbn [negb]; [apply IH|].
+    destruct (e_fmt E (assemble (pk_name p) n body)) as [out|] eqn:Hf; [|exfalso; exact (Hfmt _ Hf)].
+    specialize (IH (strike (fname a n) rem)).
+    destruct (write_loop E a p r (strike (fname a n) rem)) as [[effs rem'] e]. cbn [fst snd map] in *.
+    rewrite truncated_app, IH. reflexivity.
+  Qed.
+
+  (* in a package that came back with Done the destinations opened are exactly the files of the generators whose
+     buffer is not empty (in the order of the sync.Map) *)
+  Lemma pkg_effects_truncated : forall a gens p,
+    snd (pkg_effects E a gens p) = Done ->
+    Permutation (truncated (fst (fst (pkg_effects E a gens p))))
+                (map (fun g => gen_file a p (g_name g)) (filter (fun g => negb (is_nil (go_body (gen_run E g p)))) gens)).
+  Proof.
+    intros a gens p Hd. unfold pkg_effects in *.
+    destruct (gen_phase E gens p) as [[gfs tr] out] eqn:Hgp. destruct out; cbn [snd] in Hd; try discriminate Hd.
+    destruct (gen_phase_done E _ _ _ _ Hgp) as [Hgfs _].
+    pose proof (write_loop_truncated a p (e_order E p gfs) (generated_files a p)) as Ht.
+    destruct (write_loop E a p (e_order E p gfs) (generated_files a p)) as [[effs rem] e]. cbn [fst snd] in *.
+    destruct e; [discriminate Hd|]. cbn [fst snd]. rewrite truncated_app, Ht.
+    assert (Hrm : truncated (map (fun f => ERemove (pk_dir p, f)) (removal_order E p rem)) = []).
+    { clear. generalize (removal_order E p rem). intros l. induction l as [|x r IH]; [reflexivity | exact IH]. }
+    rewrite Hrm, app_nil_r.
+    eapply Permutation_trans.
+    { apply Permutation_map, filter_perm', Hord. }
+    rewrite Hgfs, filter_map_comm, map_map, filter_filter. cbn [snd fst].
+    assert (Hf : forall g, kept E g p && negb (is_nil (go_body (gen_run E g p))) = negb (is_nil (go_body (gen_run E g p)))).
+    { intros g. unfold kept, is_zero. destruct (go_body (gen_run E g p)); cbn [is_nil negb andb]; [apply andb_false_r | reflexivity]. }
+    rewrite (filter_ext _ _ Hf). apply Permutation_refl.
+  Qed.
+End Writes.
+
 (* ---------- the whole run ---------- *)
 
 Lemma sort_by_map {A B} (keyA : A -> bytes) (keyB : B -> bytes) (f : A -> B) :
@@ -553,4 +617,29 @@ Proof.
   { cbn [w_pkgs w to_world]. apply in_map. exact Hwp. } { exact Hproc. } { unfold gs. apply in_map. exact Hg. }
   exists cs, ran, pre, post. split; [exact Hnd'|]. split; [exact Hiff|]. split; [exact Hperm|].
   rewrite Hseg. unfold E. rewrite Ht. reflexivity.
+Qed.
+
+(* Dispatch's write event for a package (EWrites pid ws: the write phase, for the generators whose buffer is not
+   empty) and the destinations Pipeline.pkg_effects opens (ETruncate) are the same set of generators. *)
+Theorem dispatch_writes_agree : forall fmt order rk G wps fuel gens a wp,
+  NoDup (map wp_path wps) -> (forall src, fmt src <> None) -> (forall p l, Permutation (order p l) l) ->
+  In wp wps -> (forall g, In g gens -> fuel_ok G fuel wp g) ->
+  let E := whole_env fmt order rk G in
+  let gs := map (disp_gen wps fuel) gens in
+  snd (pkg_effects E a gs (to_pkginfo wp)) = Done ->
+  exists devs ws,
+    D.pkg_execute D.fixed_all (wp_d wp) gens G
+    = Ok (devs ++ (if is_nil ws then [] else [D.EWrites (D.pk_id (wp_d wp)) ws]), D.Done)
+    /\ ws = map D.g_idx (filter (renders_on fmt order rk G wps fuel wp) gens)
+    /\ Permutation (truncated (fst (fst (pkg_effects E a gs (to_pkginfo wp)))))
+                   (map (fun g => gen_file a (to_pkginfo wp) (D.g_name g)) (filter (renders_on fmt order rk G wps fuel wp) gens)).
+Proof.
+  intros fmt order rk G wps fuel gens a wp Hnd Hfmt Hord Hwp Hfuel E gs Hd.
+  destruct (gen_phase_agree fmt order rk G wps fuel Hnd gens wp gens Hwp (incl_refl _) Hfuel)
+    as [devs [o [ws [Hpg [_ [_ [Hdone _]]]]]]].
+  destruct (pkg_effects_trace fmt order rk G Hfmt a gs (to_pkginfo wp)) as [_ Hout].
+  fold E in Hout. rewrite Hd in Hout. fold gs in Hdone. fold E in Hdone. destruct (Hdone (eq_sym Hout)) as [-> Hws].
+  exists devs, ws. split; [unfold D.pkg_execute; rewrite Hpg; reflexivity|]. split; [exact Hws|].
+  eapply Permutation_trans; [apply (pkg_effects_truncated E Hfmt Hord a gs (to_pkginfo wp) Hd)|].
+  unfold gs. rewrite filter_map_comm, map_map. apply Permutation_refl.
 Qed.
